@@ -82,10 +82,12 @@ static int cmp3(long a, long b)
 {
     long d = a - b, m = d > 0 ? d : -d; int s = d > 0 ? 1 : -1;
     if (d == 0) return 0;
-    switch ((unsigned long)(a + b) % 3) {
+    switch ((unsigned long)(a + b) % 5) {
     case 0: return s;
     case 1: return s * (int)(1000 / m + 1);
-    default: return s * (int)(m > 30000 ? 30000 : m);
+    case 2: return s * (int)(m > 30000 ? 30000 : m);
+    case 3: return s * (0x40000000 + (int)(m & 0xffff));      /* any int of the right sign: also ones whose product overflows */
+    default: return s * 0x7fffffff;
     }
 }
 static int cmp(const void *a, const void *b, void *p)
